@@ -5,6 +5,7 @@ package main
 // C32 driver:
 //
 //	cleanup <indexDir> <ids|-> <nowUnixNano> <shardMerging 0|1>    runs cleanup(indexDir, ids, now, shardMerging)
+//	list <indexDir>                                                 listIndexed(indexDir): the ids it returns
 //	scan <indexDir>                                                 getShards(indexDir), getShards(.trash), getTombstonedRepos(indexDir)
 
 import (
@@ -25,6 +26,8 @@ func verifC32(f []string) string {
 		}
 		cleanup(f[1], verifIDs(f[2]), time.Unix(0, now), f[4] == "1")
 		return "ok"
+	case len(f) == 2 && f[0] == "list":
+		return "ids=" + verifShowIDs(listIndexed(f[1]))
 	case len(f) == 2 && f[0] == "scan":
 		showShards := func(m map[uint32][]shard) string {
 			var ids []uint32
